@@ -62,7 +62,7 @@ for it in range(R.n(16, 300)):
     sc = rng.choice([0, 1, 4, NB // 2 - nc])
     npol = rng.choice([1, 2])
     off = rng.choice([0.0, 0.0, 0.3, -0.4])
-    pick = rng.randint(0, nc - 1)
+    pick = rng.randint(1 if sc == 0 else 0, nc - 1)     # coarse channel 0 straddles DC (tone and mirror coincide): excluded by the property
     c = dict(asc=asc, start_chan=sc, num_chans=nc, npol=npol, off_bin=off, channel=pick)
     r = R.guard('pipeline', c, lambda: run_case(asc, sc, nc, npol, off, pick, 0.0, case))
     if r is None:
@@ -70,6 +70,28 @@ for it in range(R.n(16, 300)):
     okp, dist, peak, info = r
     R.check('get_raw_params/reproduces-fch1-chan_bw-orientation', c, okp, None)
     R.check('tone/within-one-fine-bin-of-header-frequency', dict(c, **info), dist <= 1.0 + 1e-6, dist)
+
+# chirps: the instantaneous frequency of the stream follows f_start + drift*t, both orientations, both drift signs
+for it in range(R.n(8, 60)):
+    asc = bool(it % 2)
+    sr, fch1 = 1.0e6, 1.0e9
+    drift = rng.choice([1, -1]) * rng.uniform(2e5, 6e5)
+    sgn = 1 if asc else -1
+    f_start = fch1 + sgn * rng.uniform(1.2e5, 3.0e5)
+    st = stg.voltage.DataStream(sample_rate=sr, fch1=fch1, ascending=asc, seed=it)
+    st.add_constant_signal(f_start=f_start, drift_rate=drift, level=1.0, phase=rng.uniform(0, 6))
+    W = 4096
+    worst = 0.0
+    for chunk in range(3):
+        t_mid = (chunk * 20000 + W / 2) / sr
+        if chunk:
+            st.get_samples(20000 - W)
+        v = np.asarray(st.get_samples(W))
+        sp = np.abs(np.fft.rfft(v * np.hanning(W), 8 * W))
+        f_meas = np.argmax(sp) * sr / (8 * W)
+        f_want = abs(f_start + drift * t_mid - fch1)
+        worst = max(worst, abs(f_meas - f_want))
+    R.check('chirp/instantaneous-frequency-follows-f_start+drift*t', dict(asc=asc, drift=drift, f_offset=f_start - fch1), worst < 1500.0, worst, '< 1500 Hz')
 
 # the reducer applies the requested FFT length and integration factor
 nrng = np.random.default_rng(R.seed)
